@@ -281,7 +281,7 @@ impl Prop for C15 {
     }
     fn rule(&self) -> String {
         "every prefix of dictionary words typed through the Probhat layout via a reverse key map computed from the layout file (every 12th word in quick plus every word that occurs more than once in the data, every word in thorough), \
-         plus the half-word wrapped in 7 punctuation/quote wrappings, plus every fourth word with a mark inside it (every ASCII punctuation character, danda, joiners and currency/maths signs the layout can type, in rotation; the full stop from the number pad), each in 1 (quick, rotating) / 4 (thorough) of 11 contexts over subsets of \
+         plus the half-word wrapped in 11 punctuation/quote wrappings (quotes outermost and not outermost), every third typewriter-order word typed after an aborted composition (two or three waiting signs, one backspace), plus every fourth word with a mark inside it (every ASCII punctuation character, danda, joiners and currency/maths signs the layout can type, in rotation; the full stop from the number pad), each in 1 (quick, rotating) / 4 (thorough) of 11 contexts over subsets of \
          {traditional joining, smart quotes, English, ANSI} plus old vowel-sign order (keys in typewriter order) and the auto-vowel/chandra/reph helpers; every context has a twin with suggestions off that receives the same keys and defines the composed text; \
          the list returned after every key is judged. distinct_nontrivial = distinct (composed text, options) pairs whose list was judged."
             .into()
